@@ -12,6 +12,7 @@ from __future__ import annotations
 
 import contextlib
 import hashlib
+import re
 import io
 import json
 import random
@@ -359,8 +360,17 @@ def safe(kind, design):
 
 
 def as_ints(obj) -> list[int]:
-    h = hashlib.sha1(canon(obj).encode()).hexdigest()
+    # object addresses in a message (a default repr) differ between processes and are nobody's result
+    h = hashlib.sha1(re.sub(r'0x[0-9a-fA-F]{6,}', '0x', canon(obj)).encode()).hexdigest()
     return [int(h[i:i + 7], 16) for i in range(0, 28, 7)]
+
+
+def _eps_state(Rectangle):
+    """The process-wide tolerance through the public accessors (conformance event only)."""
+    try:
+        return Rectangle.distance_epsilon() if Rectangle.epsilon_defined() else None
+    except Exception:
+        return None
 
 
 def run_behaviour(b):
@@ -369,9 +379,9 @@ def run_behaviour(b):
     from tools.rect import pseudobool
     events = []
     for (kind, sidx, seed) in b["hist"]:
-        before = Rectangle._distance_epsilon
+        before = _eps_state(Rectangle)
         safe(kind, make_design(kind, seed, sidx))
-        events.append([kind, sidx, int(Rectangle._distance_epsilon != before), len(pseudobool.memory)])
+        events.append([kind, sidx, int(_eps_state(Rectangle) != before), len(getattr(pseudobool, 'memory', ()))])
     res = safe(b["probe"], make_design(b["probe"], b["pseed"], 2, probe=True))
     return {"events": events, "digest": as_ints(res), "res": res if b.get("keep") else None}
 
